@@ -144,7 +144,7 @@ pub fn check_term(ctx: &mut ReCtx, rep: &mut Report, t: RegLan, r: &R, what: &st
                     }
                     if g1 != *wd {
                         rep.inc("replace_calls_that_replaced_something");
-                        if r.size() <= 14 && rep.xchecks.len() < 60 && rng.chance(1, 200) {
+                        if r.size() <= 14 && rep.xchecks.len() < 60 && rng.chance(1, 200) && crate::oracle::smtlib::cvc5_safe(r) {
                             use crate::oracle::smtlib::{lit, re};
                             rep.xcheck(|| format!("(= (str.replace_re {} {} {}) {})", lit(wd), re(r), lit(rp), lit(&g1)));
                             rep.xcheck(|| format!("(= (str.replace_re_all {} {} {}) {})", lit(wd), re(r), lit(rp), lit(&g2)));
